@@ -6,17 +6,21 @@ Bounded-exhaustive enumeration, exhaustive in the VALUE dimension (executor: har
      255-channel stream to every 13th plus +-3 around 0, 1 and 2 frames), on encoder-made streams with
      1, 2, 3, 6 and 255 channels, a chain whose links have 2, 1 and 3 channels, and three "loud" streams (valid streams whose
      residue codebooks are declared 2^1, 2^17, 2^31 times larger, so that the decoded PCM is far outside +-1);
-     non-positive word sizes; negative buffer lengths {-1,-2,-4,-4096,INT_MIN,INT_MIN+1} (probed right after open and
+     non-positive word sizes; the two chained streams (mono->stereo, stereo->mono->3ch) again on NON-SEEKABLE handles under
+     ASan (channel count per link from construction); negative buffer lengths {-1,-2,-4,-4096,INT_MIN,INT_MIN+1} (probed right after open and
      between ordinary reads, i.e. with decoded data pending; a guarded real buffer sits behind the pointer): error or 0 at
      end of stream, never a positive count, nothing written, position unchanged, following reads still equal the twin.  Every (format, length) case of the 1/2/3/6-channel streams is also run with half-rate
      decoding switched on (ov_halfrate(vf,1) before the first read on both handles): bytes = conversion of the half-rate
      float decode, whole frames, ov_pcm_tell advances by exactly 2 per frame returned.
+ (c) ov_read_filter with non-idempotent filters (gain 2, gain 0.5, offset) x 4 request patterns (big buffer, 100 bytes, one
+     frame, big buffers with refused too-small / negative requests in between) x 8 formats x 1,2,3 channels: every byte is
+     convert(filter(twin float)) with the filter applied exactly once; filter samples handed over == frames returned.
  (b) value enumeration through the real packing loops: the filter callback of ov_read_filter overwrites the decoded
      block with float bit patterns; quick: a stratified boundary set (every exponent, every integer and half-step of
      both grids +-3 ulp, conversion-overflow boundaries) x 8 formats, plus every pattern with 2^-17 <= |x| < 4 for
      16-bit signed little-endian and 2^-9 <= |x| < 4 for 8-bit unsigned; thorough: ALL 2^32 patterns x 8 formats.
 """
-import os, sys, json, time, struct, subprocess, random
+import os, sys, re, json, time, struct, subprocess, random
 import vlib
 
 PID = 'C17'
@@ -69,6 +73,12 @@ def streams(tier):
              vlib.mkzoo('c17_c3', rate=44100, ch=3, n=900, q=0.1, sig='mix', serial=1713, tag='c17c3')]
     p, _ = vlib.chain('c17_chain', links)
     S['c17_chain'] = (p, 3)
+    CHAINLINKS['c17_chain'] = ','.join('%d:%d' % (m['n'], m['ch']) for _, m in links)
+    links = [vlib.mkzoo('c17_d1', rate=8000, ch=1, n=500, q=0.3, sig='mix', serial=1714, tag='c17d1', pages='flush'),
+             vlib.mkzoo('c17_d2', rate=11025, ch=2, n=640, q=0.2, sig='sine', serial=1715, tag='c17d2')]
+    p, _ = vlib.chain('c17_chain12', links)
+    S['c17_chain12'] = (p, 2)
+    CHAINLINKS['c17_chain12'] = ','.join('%d:%d' % (m['n'], m['ch']) for _, m in links)
     exe = vlib.harness('plain', 'c17_pcm')
     for shift in (1, 17, 31):
         name = 'c17_loud%d' % shift
@@ -81,6 +91,12 @@ def streams(tier):
     return S
 
 
+CHAINLINKS = {}      # chain name -> 'n1:ch1,n2:ch2,..' (construction ground truth, filled by streams())
+STREAMING = ['c17_chain12', 'c17_chain']       # mono->stereo and stereo->mono->3ch, read through NON-SEEKABLE handles under ASan
+STREAM_LENS = [0, 1, 2, 3, 4, 5, 6, 7, 12, 13, 100, 1000, 4096, 65536]
+GAIN_STREAMS = ['c17_m1', 'c17_s2', 'c17_t3']   # 1, 2, 3 channels for the non-idempotent-filter cases
+FILTS = ['gain2', 'gain0.5', 'offset+0.25']
+PATTERNS = ['big_buffer', '100_byte_buffer', 'one_frame_buffer', 'big_with_refused_requests']
 # negative buffer lengths (a caller's 'size - used' gone wrong): must be refused like any buffer too small for one frame
 NEGLENS = [-1, -2, -4, -4096, -2147483648, -2147483647]
 HALF = ['c17_m1', 'c17_s2', 'c17_t3', 'c17_x6']      # 1, 2, 3, 6 channels: every (format, length) case is also run at half rate
@@ -99,6 +115,8 @@ def parse(line):
         if '=' in tok:
             k, v = tok.split('=', 1)
             d[k] = v
+    if sp[0] not in ('ok', 'bad', 'SKIP'):
+        d = {'_line': line}
     return sp[0], d
 
 
@@ -128,7 +146,12 @@ def merge_ranges(rs):
 
 def case_line(c, S):
     """c = (kind, stream name, args...) -> executor case text"""
-    return f"{c[0]} {S[c[1]][0]} " + ' '.join(str(x) for x in c[2:])
+    return f"{c[0]} {S[c[1]][0]} " + ' '.join(str(x) for x in c[2:]) + (' ' + CHAINLINKS[c[1]] if c[0] == 'S' else '')
+
+
+def make_stream_cases(tier):
+    """twin read-through on non-seekable handles of the chained streams (run under ASan)"""
+    return [('S', name, f, ln) for name in STREAMING for f in range(8) for ln in STREAM_LENS]
 
 
 def make_cases(tier, S):
@@ -157,6 +180,11 @@ def make_cases(tier, S):
     for f in range(8):          # boundary set through the filter with half-rate decoding on (2-channel carrier)
         for part in range(4):
             pre.append(('G', 'c17_v2', f, part, 4, 1))
+    for name in GAIN_STREAMS:
+        for f in range(8):
+            for filt in range(len(FILTS)):
+                for pat in range(len(PATTERNS)):
+                    pre.append(('F', name, f, filt, pat))
     if tier == 'thorough':
         # ALL 2^32 patterns per format; format order = priority, so that a run cut by the deadline still completes whole formats
         for f in [6, 0, 5, 4, 2, 7, 1, 3]:
@@ -185,16 +213,26 @@ def classify_failure(c, status, d):
     """-> list of (key, short description) for one failing case (excluding kind-1 runs, handled by the caller)"""
     kind = c[0]
     what = d.get('what', '-')
-    tag = fmt_name(c[2]) if kind in 'TVG' else 'word%d' % c[2]
+    tag = fmt_name(c[2]) if kind in 'TVGSF' else 'word%d' % c[2]
+    if kind == 'S':
+        tag += ':nonseekable'
+    if kind == 'F':
+        tag += ':filtered'
     if is_half(c):
         tag += ':halfrate'
     out = []
     if status not in ('ok', 'bad'):
-        out.append((f'executor_{status}:{kind}:{c[1]}:{tag}', f'executor answered {status} {json.dumps(d)[:300]}'))
+        raw = d.get('_line', '')
+        if 'AddressSanitizer' in raw or 'runtime error' in raw:
+            raw = re.sub(r'0x[0-9a-fA-F]+', '0x..', re.sub(r'==\d+==', '', raw))     # no addresses / pids in anything we write
+            i = raw.find('AddressSanitizer')
+            out.append((f'sanitizer_report:{c[1]}:{tag}', f'{kind} case {c[1:]}: the executor died with a sanitizer report: {raw[max(0, i - 10):i + 400]}'))
+        else:
+            out.append((f'executor_{status}:{kind}:{c[1]}:{tag}', f'executor answered {status} {raw[:300]}'))
         return out
     if what != '-':
         token = what.split(':')[0]
-        out.append((f'{token}:{c[1]}:{tag}', f'{kind} case on {c[1]} {tag} len={c[3] if kind in "TW" else c[-1]}: {what}'))
+        out.append((f'{token}:{c[1]}:{tag}', f'{kind} case on {c[1]} {tag} ' + (f'filter={FILTS[c[3]]} requests={PATTERNS[c[4]]}' if kind == 'F' else f'len={c[3] if kind in "TWS" else c[-1]}') + f': {what}'))
     for k, lo, hi, got, want in parse_runs(d.get('runs')):
         if k == 2:
             x = bits_float(lo)
@@ -210,7 +248,7 @@ def evaluate(chk, cases, res, S, agg):
         if status == 'SKIP':
             agg['skipped'].append(c)
             continue
-        f = c[2] if kind in 'TVG' else None
+        f = c[2] if kind in 'TVGSF' else None
         if 'cls' in d and f is not None:
             cl = [int(x) for x in d['cls'].split(',')]
             for i, n in enumerate(cl):
@@ -233,6 +271,20 @@ def evaluate(chk, cases, res, S, agg):
                 agg['half_combos'].add((c[2], int(d['maxch'])))
             if kind == 'G':
                 agg['half_filter_calls'] += int(d.get('calls', 0))
+        if kind == 'S' and status in ('ok', 'bad'):
+            agg['stream_reads'] += int(d.get('reads', 0))
+            agg['stream_rej'] += int(d.get('rej', 0))
+            if status == 'ok' and int(d.get('reads', 0)) > 0 and int(d.get('crossed', 0)) == int(d.get('links', 0)) - 1:
+                agg['stream_combos'].add((c[1], c[2]))
+        if kind == 'F' and status in ('ok', 'bad'):
+            agg['filter_reads'] += int(d.get('reads', 0))
+            agg['filter_rej'] += int(d.get('rej', 0))
+            agg['filter_samples'] += int(d.get('fsamples', 0))
+            agg['filter_frames'] += int(d.get('frames', 0))
+            if status == 'ok' and int(d.get('reads', 0)) > 0:
+                agg['filter_combos'].add(c[1:])
+                if c[4] == 3 and int(d.get('rej', 0)) > 2:
+                    agg['filter_refused_combos'].add(c[1:4])
         if kind == 'T' and c[3] < 0 and status in ('ok', 'bad'):
             agg['negprobes'] += int(d.get('negprobes', 0))
             if int(d.get('negprobes', 0)) > 1 and int(d.get('reads', 0)) > 0:
@@ -279,18 +331,24 @@ def evaluate(chk, cases, res, S, agg):
 def run(tier):
     chk = vlib.Check(PID, tier, 'exploration')
     t0 = time.time()
-    vlib.build('plain')
+    vlib.build('plain', 'asan')
     exe = vlib.harness('plain', 'c17_pcm')
+    exe_asan = vlib.harness('asan', 'c17_pcm')
     S = streams(tier)
     pre, val = make_cases(tier, S)
+    scases = make_stream_cases(tier)
     agg = {'cls': [[0] * len(CLS) for _ in range(8)], 'vjudged': [0] * 8, 'vnan': [0] * 8, 'vslices': [0] * 8, 'vcover': [0] * 8, 'gjudged': 0, 'tjudged': 0, 'tbig': 0,
-           'rej': 0, 'wrej': 0, 'einval': 0, 'reads': 0, 'multi': 0, 'maxch': 0, 'chain_reads': 0, 'half_reads': 0, 'half_combos': set(), 'half_filter_calls': 0, 'negprobes': 0, 'neg_combos': set(), 'skipped': [],
+           'rej': 0, 'wrej': 0, 'einval': 0, 'reads': 0, 'multi': 0, 'maxch': 0, 'chain_reads': 0, 'half_reads': 0, 'half_combos': set(), 'half_filter_calls': 0, 'negprobes': 0, 'neg_combos': set(), 'stream_reads': 0, 'stream_rej': 0, 'stream_combos': set(),
+           'filter_reads': 0, 'filter_rej': 0, 'filter_samples': 0, 'filter_frames': 0, 'filter_combos': set(), 'filter_refused_combos': set(), 'skipped': [],
            'k1': [{'n': 0, 'nenv': 0, 'contig': [], 'env': [], 'case': None} for _ in range(8)], 'k1twin': {}, 'other': []}
     budget = 150 if tier == 'quick' else 22 * 60
     deadline = int(t0 + budget)
     # the small batch (twin / refusal / boundary-set cases, ~100 CPU s) carries every vacuity guard: no cap in quick
     res = vlib.run_cases(exe, [case_line(c, S) for c in pre], ['--deadline', str(deadline)] if tier == 'thorough' else [], tag='c17a')
     evaluate(chk, pre, res, S, agg)
+    # non-seekable chained twins under ASan: a wrong per-link info lookup is an out-of-bounds read before it is a wrong byte
+    res = vlib.run_cases(exe_asan, [case_line(c, S) for c in scases], ['--deadline', str(deadline)] if tier == 'thorough' else [], tag='c17s')
+    evaluate(chk, scases, res, S, agg)
     res = vlib.run_cases(exe, [case_line(c, S) for c in val], ['--deadline', str(deadline)], tag='c17b')
     evaluate(chk, val, res, S, agg)
 
@@ -348,7 +406,7 @@ def run(tier):
     chk.cov.update({
         'distinct_nontrivial': len(combos),
         'exhaustive': exhaustive,
-        'rule': 'cases: T = (stream, format, buffer length[, half-rate]) twin read-through, all 8 formats x lengths 0..2 frames+1, 4096, 65536 x every position reached, '
+        'rule': 'cases: S = T on non-seekable handles of the chained streams (ASan build); F = ov_read_filter with a gain/offset filter under a request pattern; T = (stream, format, buffer length[, half-rate]) twin read-through, all 8 formats x lengths 0..2 frames+1, 4096, 65536 x every position reached, '
                 'the 1/2/3/6-channel streams additionally with ov_halfrate(vf,1) on both handles before the first read (ov_pcm_tell must advance 2 per frame); '
                 'W = non-positive word {0,-1,INT_MIN} x 4 lengths; G = slice of the stratified boundary float set through ov_read_filter on a 2- and a 3-channel stream; '
                 'V = contiguous block of float bit patterns through ov_read_filter (%s). '
@@ -365,6 +423,9 @@ def run(tier):
         'multichannel_multiframe_reads': agg['multi'], 'max_channels_read': agg['maxch'], 'reads_over_channel_change': agg['chain_reads'],
         'halfrate_twin_reads': agg['half_reads'], 'halfrate_format_x_channels_combos': len(agg['half_combos']), 'halfrate_filter_calls': agg['half_filter_calls'],
         'negative_length_probes': agg['negprobes'], 'negative_length_format_x_stream_x_rate_combos': len(agg['neg_combos']),
+        'nonseekable_chain_reads_under_asan': agg['stream_reads'], 'nonseekable_small_buffer_refusals': agg['stream_rej'], 'nonseekable_chain_x_format_combos': len(agg['stream_combos']),
+        'gain_filter_reads': agg['filter_reads'], 'gain_filter_refused_requests': agg['filter_rej'], 'gain_filter_samples_handed_to_filter': agg['filter_samples'],
+        'gain_filter_frames_returned': agg['filter_frames'], 'gain_filter_stream_x_format_x_filter_x_pattern_combos': len(agg['filter_combos']),
         'cases_skipped_by_deadline': len(agg['skipped']),
         'ftoi_overflow_ranges': lines,
     })
@@ -387,6 +448,11 @@ def run(tier):
               'half-rate decoding: all 8 formats x {1,2,3,6} channels were read with ov_halfrate on (position must advance 2 per frame), and the filter path ran at half rate')
     chk.guard(len(agg['neg_combos']) == 8 * (len(TWIN) + len(HALF)),
               'negative buffer lengths were probed right after open and between ordinary reads for all 8 formats on every twin stream (1..255 channels), full and half rate')
+    chk.guard(len(agg['stream_combos']) == 8 * len(STREAMING) and agg['stream_rej'] > 0,
+              'non-seekable handles: both chains were read through every link boundary for all 8 formats under ASan, too-small buffers included')
+    chk.guard(len(agg['filter_combos']) == len(GAIN_STREAMS) * 8 * len(FILTS) * len(PATTERNS) and len(agg['filter_refused_combos']) == len(GAIN_STREAMS) * 8 * len(FILTS)
+              and agg['filter_samples'] == agg['filter_frames'] > 0,
+              'non-idempotent filters: every stream x format x filter x request pattern ran, refused requests occurred between reads, filter samples == frames returned')
     chk.guard(agg['chain_reads'] > 0, 'a read-through crossed a change of channel count')
     chk.guard(agg['rej'] > 0 and agg['wrej'] > 0, 'small-buffer and non-positive-word refusals were observed')
     chk.guard(agg['tbig'] > 0, 'the twin check met samples of a valid stream whose scaled value is beyond the int range')
@@ -404,10 +470,12 @@ def run(tier):
 def replay(path):
     r = json.load(open(path))['replay']
     tier = r.get('tier', 'quick')
-    vlib.build('plain')
-    exe = vlib.harness('plain', 'c17_pcm')
-    S = streams(tier)
     c = tuple(r['case'])
+    fl = 'asan' if c[0] == 'S' else 'plain'
+    vlib.build('plain', fl)
+    vlib.harness('plain', 'c17_pcm')
+    exe = vlib.harness(fl, 'c17_pcm')
+    S = streams(tier)
     line = case_line(c, S)
     out = vlib.run_cases(exe, [line], jobs=1, tag='c17r')
     print(line)
